@@ -912,6 +912,92 @@ func (rs *RelationService) Insert(tableName string, cols []string, vals []interf
 	return walLogs, nil
 }
 
+// CheckInsert reports the error Insert would return for this row, without
+// changing anything. A multi-row INSERT uses it to refuse the whole statement
+// before its first row is stored.
+func (rs *RelationService) CheckInsert(tableName string, cols []string, vals []interface{}) error {
+	if _, err := rs.getRelationFileOffset(tableName); err != nil {
+		return err
+	}
+
+	schema, err := rs.getRelationSchema(tableName)
+	if err != nil {
+		return err
+	}
+
+	if len(cols) == 0 {
+		for _, fd := range schema.Fields {
+			cols = append(cols, fd.Name)
+		}
+	}
+
+	if len(cols) != len(vals) {
+		return ErrColCountMismatch
+	}
+
+	tuple := Tuple{
+		Relation: schema,
+		Vals:     make(map[string]interface{}, len(cols)),
+	}
+	for i, col := range cols {
+		tuple.Vals[col] = vals[i]
+	}
+
+	buf, err := tuple.Encode()
+	if err != nil {
+		return err
+	}
+
+	return checkRowSizeLimit(buf.Bytes())
+}
+
+// CheckUpdate reports the error Update would return for this row, without
+// changing anything.
+func (rs *RelationService) CheckUpdate(tableName string, rowID uint32, cols []string, updateSrc []interface{}) error {
+	fileOffset, err := rs.getRelationFileOffset(tableName)
+	if err != nil {
+		return err
+	}
+
+	pg, err := rs.fs.fetch(uint64(fileOffset))
+	if err != nil {
+		return err
+	}
+
+	r, err := rs.getRelationSchema(tableName)
+	if err != nil {
+		return err
+	}
+
+	bt := BTree{store: rs.fs}
+	bt.setRoot(pg)
+
+	return bt.scanRight(func(cell *leafCell) (ScanAction, error) {
+		if cell.key != rowID {
+			return KeepScanning, nil
+		}
+
+		tuple := Tuple{
+			Relation: r,
+			Vals:     make(map[string]interface{}),
+		}
+		if err := tuple.Decode(bytes.NewBuffer(cell.valueBytes)); err != nil {
+			return StopScanning, err
+		}
+
+		for i, col := range cols {
+			tuple.Vals[col] = updateSrc[i]
+		}
+
+		buf, err := tuple.Encode()
+		if err != nil {
+			return StopScanning, err
+		}
+
+		return StopScanning, checkRowSizeLimit(buf.Bytes())
+	})
+}
+
 // todo combine with update page table code?
 func (rs *RelationService) Update(tableName string, rowID uint32, cols []string, updateSrc []interface{}) (WALBatch, error) {
 	var walLogs WALBatch
